@@ -69,3 +69,18 @@ def slow_102(rng):
     meta = {"subs": {"tag102": dict(sub=s, topic=t, plain=None)}, "msgs": {hx(data): dict(tag="tag102", outcomes=["102"], attrs="-")},
             "deleted": [], "after_delete": []}
     return lines, meta
+
+
+def slow_sibling(rng):
+    """Two messages of one push round: one is accepted at once, the other one's request is never
+    answered. The accepted one must not be POSTed again when the other's lease runs out (12 s of
+    real time)."""
+    t, s = tname("p", "tsib"), sname("p", "pushsib")
+    a = ("fast-%d" % rng.below(10 ** 6)).encode()
+    b = ("slow-%d" % rng.below(10 ** 6)).encode()
+    lines = ["interval 10", "ctopic " + hx(t), "csub %s %s tagsib" % (hx(s), hx(t)), "script %s 200" % hx(a),
+             "script %s hang,200" % hx(b), "pub %s %s" % (hx(t), jl([hx(a), hx(b)])), "wait 11500", "posts"]
+    meta = {"subs": {"tagsib": dict(sub=s, topic=t, plain=None)},
+            "msgs": {hx(a): dict(tag="tagsib", outcomes=["200"], attrs="-"), hx(b): dict(tag="tagsib", outcomes=["hang", "200"], attrs="-")},
+            "deleted": [], "after_delete": []}
+    return lines, meta
